@@ -142,6 +142,7 @@ func checkCode(code *compiler.Code, isMain bool) (instrs int, edges int, f *code
 	work := []int{0}
 	seenEnd := false
 	endHeight := 0
+	lastReturn, lastReturnHeight := -1, 0
 	name := code.CodeName()
 	if isMain {
 		name = "main"
@@ -172,6 +173,9 @@ func checkCode(code *compiler.Code, isMain bool) (instrs int, edges int, f *code
 			return instrs, edges, &codeFinding{"emitted-code:stack-underflow:" + opname, fmt.Sprintf("%s at %d needs %d values, height is %d", opname, ip, need, h)}
 		}
 		if terminal {
+			if !isMain && code.Instruction(ip) == op.ReturnValue && ip > lastReturn {
+				lastReturn, lastReturnHeight = ip, h
+			}
 			continue
 		}
 		for _, s := range next {
@@ -201,6 +205,11 @@ func checkCode(code *compiler.Code, isMain bool) (instrs int, edges int, f *code
 	}
 	if isMain && seenEnd && endHeight != 1 {
 		return instrs, edges, &codeFinding{"emitted-code:main-ends-with-height", fmt.Sprintf("main code ends with %d values on the stack (expected exactly the result)", endHeight)}
+	}
+	if !isMain && lastReturn >= 0 && lastReturnHeight != 1 {
+		// the return that ends the body sits outside every loop and switch: nothing but the result may be
+		// on the frame's stack there (statements of the body that left values behind show up here)
+		return instrs, edges, &codeFinding{"emitted-code:function-body-ends-with-height", fmt.Sprintf("the last return of the function body (instruction %d) is reached with %d values on the stack (expected exactly the result)", lastReturn, lastReturnHeight)}
 	}
 	if !isMain && seenEnd {
 		return instrs, edges, &codeFinding{"emitted-code:function-falls-off-end", "a function body can run past its last instruction"}
